@@ -103,3 +103,102 @@ contract(
     requires={"first-line-shape": "first_line_ok(_ghost_words)"},
     ensures={"date-in-front-of-the-zid": "result == with_modify_date(short_modify_date, _ghost_words)"},
 )
+
+
+# ---------------------------------------------------------------------------------------------------------------
+# _update_zo_file: the write-back frame of C05 ("files change only to gain ZIDs") and C11 ("every other note's lines stay
+# byte-identical"): exactly the first lines of the notes to update are rewritten, by the given line function.
+# ---------------------------------------------------------------------------------------------------------------
+from engine.spec import fs_exists, fs_only_changed, fs_read, json_map, map_set, opaque  # noqa: E402
+from contracts.c06 import sha256_of  # noqa: E402,F401
+from contracts.c16 import relative  # noqa: E402,F401
+from zorg.domain.models import Note  # noqa: E402
+
+NLINES = 3 if os.environ.get("VERIF_TIER") != "thorough" else 5
+PATH = T.rec("Path", {"s": T.str()})
+UPD_BOUNDED = (f"bounded-symbolic: pages of at most {NLINES} lines and at most 2 notes to update (bodies of 1-2 lines); every line, ZID and line number "
+               "fully symbolic; the line function and the value getter are uninterpreted functions")
+
+
+@opaque("path", always=True)
+def hash_file_of(zdir):
+    """the notes directory's hash file (.zorg/file_hash.json)"""
+    from zorg.service import handlers
+
+    return handlers._get_file_hash_path(zdir)
+
+
+def _fs_havoc(interp, loc, old):
+    """assumed contracts with a file-system effect: the post-state is a fresh file system, constrained by the ensures clauses"""
+    import z3
+    from engine import models
+
+    g = models.fs_state(interp)
+    g["fs_exists"] = interp.ctx.fresh("fs_exists.after", z3.ArraySort(z3.StringSort(), z3.BoolSort()))
+    g["fs_content"] = interp.ctx.fresh("fs_content.after", z3.ArraySort(z3.StringSort(), z3.StringSort()))
+
+
+contract(H + "_get_file_hash_path", props=["C05", "C11"], assumed=True, args={"zdir": PATH}, result_is="hash_file_of(zdir)",
+         note="ASSUMED: zdir/.zorg/file_hash.json (creating the .zorg directory is not a change of any file)")
+contract(H + "_write_file_hash_to_disk", props=["C05", "C11"], assumed=True, args={"file_hash_path": PATH, "file_to_hash": T.map(T.str(), T.str())},
+         ensures={"stored": "fs_exists(file_hash_path) and json_map(fs_read(file_hash_path)) == file_to_hash", "nothing-else": "fs_only_changed(file_hash_path)"},
+         note="ASSUMED: json.dump of the sorted map (A-FS json codec: loads(dump(m)) == m)")
+from engine.spec import REGISTRY as _REG5  # noqa: E402
+
+_REG5[H + "_write_file_hash_to_disk"]["effects"] = _fs_havoc
+
+
+def _update_prelude(interp, loc):
+    """the page holds 1..NLINES newline-free lines; 1..2 notes to update with ZIDs, line numbers and 1-2 line bodies; the
+    line function / value getter are uninterpreted (get_thing depends on the note through its ZID: attrgetter('zid') and the
+    constant today's date at the two call sites)"""
+    import z3
+    from engine import models, sym
+
+    ctx = interp.ctx
+    lines = sym.TCList(sym.TStr(), 1, NLINES).fresh(ctx, "line")
+    for w in lines:
+        ctx.assume(z3.Not(z3.Contains(w.t, z3.StringVal("\n"))))
+    n = 1 if ctx.branch(ctx.fresh("one.note", z3.BoolSort()), "one note to update") else 2
+    notes = []
+    for i in range(n):
+        bl = sym.TCList(sym.TStr(), 1, 2).fresh(ctx, f"note{i}.bodyline")
+        for w in bl:
+            ctx.assume(z3.Not(z3.Contains(w.t, z3.StringVal("\n"))))
+        notes.append(sym.Rec("Note", {"zid": sym.TStr().fresh(ctx, f"note{i}.zid"), "line_no": sym.TInt(None, None).fresh(ctx, f"note{i}.line_no"),
+                                      "body": models.str_method(interp, "\n", "join", [bl], {})}, cls=Note))
+    f_add = sym.ufun("add_thing_to_first_line", z3.StringSort(), z3.StringSort(), z3.StringSort())
+    f_get = sym.ufun("get_thing", z3.StringSort(), z3.StringSort())
+    loc["zdir"], loc["zo_path"] = PATH.fresh(ctx, "zdir"), PATH.fresh(ctx, "zo_path")
+    loc["notes_to_update"] = notes
+    loc["add_thing_to_first_line"] = models._Closure(lambda thing, line: sym.sstr(f_add(sym.zstr(thing), sym.zstr(line))))
+    loc["get_thing"] = models._Closure(lambda note: sym.sstr(f_get(sym.zstr(note.fields["zid"]))))
+    loc["log_message"] = "updating"
+    loc["_ghost_lines"] = lines
+    g = models.fs_state(interp)
+    ps = sym.zstr(loc["zo_path"].fields["s"])
+    g["fs_exists"] = z3.Store(g["fs_exists"], ps, True)
+    g["fs_content"] = z3.Store(g["fs_content"], ps, sym.zstr(models.str_method(interp, "\n", "join", [lines], {})))
+
+
+def rewritten(lines, notes, add, get):
+    """the page after the update: the first line of every note to update goes through the line function, in the order given;
+    every other line is kept as it is"""
+    out = list(lines)
+    for n in notes:
+        out[n.line_no - 1] = add(get(n), out[n.line_no - 1])
+    return "\n".join(out)
+
+
+contract(
+    H + "_update_zo_file", props=["C05", "C11"], args={}, prelude=_update_prelude, list_bound=NLINES, bounded_note=UPD_BOUNDED,
+    requires={
+        "index-agrees-with-file": "all(1 <= n.line_no and n.line_no <= len(_ghost_lines) for n in notes_to_update)",
+        "the-hash-file-exists": "fs_exists(hash_file_of(zdir)) and hash_file_of(zdir) != zo_path",
+    },
+    ensures={
+        "only-first-lines-of-the-given-notes-are-rewritten": "fs_read(zo_path) == rewritten(_ghost_lines, notes_to_update, add_thing_to_first_line, get_thing)",
+        "only-the-page-and-the-hash-file-change": "fs_only_changed(zo_path, hash_file_of(zdir))",
+        "only-the-page's-own-hash-entry-is-refreshed": "json_map(fs_read(hash_file_of(zdir))) == map_set(old(json_map(fs_read(hash_file_of(zdir)))), relative(zdir, zo_path), sha256_of(fs_read(zo_path)))",
+    },
+)
